@@ -426,6 +426,11 @@ def run(ctx):
         {"tokens": {"good"}, "max_size": LIMIT, "types": None, "delete": True},
         {"tokens": {"good", "other"}, "max_size": LIMIT, "types": ["text/plain", "text/gemini"], "delete": False},
         {"tokens": {"good"}, "max_size": LIMIT, "types": ["text/plain"], "delete": True, "via_config": True},
+        # legitimate values that are falsy: a limit of zero bytes (nothing but deletes can be within it), an
+        # empty token string among the tokens
+        {"tokens": None, "max_size": 0, "types": None, "delete": True},
+        {"tokens": {"good"}, "max_size": 0, "types": None, "delete": False, "via_config": True},
+        {"tokens": None, "max_size": 1, "types": None, "delete": True},
     ]
     k = 0
     # ---- un-faulted request space
